@@ -3,6 +3,12 @@
 case = {"kind":  "build" | "parse" | "newline" | "edit",
         "cls":   "Dsc" | "Changes" | "BuildInfo" | "Release" | "PdiffIndex",
         "dak":   bool                       (Release only: size_field_behavior = "dak")
+        "cfg":   [[route, value], ...]      (Release only, optional: HOW the configuration is chosen - a history of
+                                             assignments through route "attr" (para.size_field_behavior = value) or
+                                             "method" (para.set_size_field_behavior(value)); value "dak" |
+                                             "apt-ftparchive" | any other string (must be refused); when present,
+                                             "dak" is what the history leaves behind.  Absent: attribute, once)
+        "fill":  "assign" | "append" | "split" | "setsub"   (build, edit from build: how the records get into the paragraph)
         "items": [ ["s", field, [[token, ...], ...], single_line], ["p", name, value], ... ]
         "pad":   int                        (parse: width the harness pads the size column to)
         "fold":  [field, ...]               (parse: fields written with their first record on the header line)
@@ -22,7 +28,23 @@ case = {"kind":  "build" | "parse" | "newline" | "edit",
            property's: after an operation the dump must hold the same field names (any order).
            copy() is not asserted to succeed (it raises on the pinned tree as soon as a structured
            field is present - reported, outside the statement); when it does, the copy is dumped.
-  step     ["set"|"setlower"|"inplace", item] | ["del", k] | op
+  step     ["set"|"setlower"|"inplace"|"append", item] | ["del", k] | ["setsub", k, i, j, token, size] |
+           ["cfg", route, value] | op
+
+  cfg      every route to a configuration is the same configuration: after a valid value went in through
+           either route, size_field_behavior reads that value back and the dump is laid out for it
+           (also when it is changed back, or changed on a paragraph that was dumped before: edit step
+           "cfg"); a value other than the two documented ones is refused with ValueError and leaves
+           the configuration as it was; a fresh / freshly parsed Release reads "apt-ftparchive".
+  fill     "assign": para[field] = complete list (or the one dict of the single-line form);
+           "append": para[field] = [] and then para[field].append(record) for each record;
+           "split": the first half assigned, the rest appended through para[field];
+           "setsub": records of placeholder tokens assigned, then every sub-field corrected through
+           para[field][i][sub] = token (single-line form: para[field][sub] = token).
+           The list / dict is always the one the PARAGRAPH hands out (asked for again before every
+           change): what the library hands out is what it dumps.  Whether a list object the caller
+           keeps after para[field] = L stays connected to the paragraph is not promised by the
+           statement (nor by a docstring, docs/ or the README) and is NOT exercised.
 
   build    assign the records (lists of dicts keyed by the documented sub-field names) into an
            empty instance in the order of "items", dump, inspect the text, parse it again
@@ -36,17 +58,20 @@ case = {"kind":  "build" | "parse" | "newline" | "edit",
            records / value, and must dump like a paragraph that only ever held them.
   newline  as build, but one component contains a newline: dump must raise ValueError
   edit     one object, several dumps: after building / parsing, each step assigns a field (documented
-           or lower-case spelling), changes a record list through the list object, deletes a field or
-           applies a mapping operation; after every step the dump must be the one of a paragraph
-           that holds just the current content
+           or lower-case spelling), changes a record list through the list object handed out by the
+           paragraph ("inplace": list[:] = records; "append": list.append(record) for each record of
+           the item; "setsub": record i of the k-th structured field gets sub-field j replaced, k / i / j
+           modulo what is there, the size column takes "size", any other "token"), deletes a field,
+           changes the Release configuration ("cfg") or applies a mapping operation; after every
+           step the dump must be the one of a paragraph that holds just the current content in the
+           current configuration
 
-Empty record lists ("any list of whitespace-free records" includes the list of none): only in the
-build direction and in edit steps (the text 'Field:' + nothing parses to an empty single-line
-mapping, which is not a record list, so the parse direction has no spelling for it).  Demanded:
-dump() does not raise, the text is one paragraph (no empty line) with the bare header 'Field:',
-every OTHER field is laid out as usual and re-parses to its records, the empty field re-parses to
-zero records.  Not demanded: re-dumping the re-parsed paragraph, and - tolerated and labelled, see
-ASSUMPTIONS - the ValueError that PdiffIndex and Release(dak) raise for an empty list.
+Empty record lists ("any list of whitespace-free records" includes the list of none): generated
+only in the build direction and in edit steps (the harness-written texts of the parse direction
+always hold >= 1 record per field).  Demanded: dump() does not raise in any class / configuration,
+the text is one paragraph (no empty line) with the bare header 'Field:', every OTHER field is laid
+out as usual and re-parses to its records, the empty field re-parses to zero records, and the
+re-parsed paragraph dumps to the same text again.
 
 A structured item lists its tokens in the documented sub-field order of DOC below; "single_line"
 (only for the *-Current fields of a pdiff Index) selects the one-record form written on the field's
@@ -92,6 +117,15 @@ RULE = ("cases are (class x Release size_field_behavior, ordered list of structu
         "every enumerated subset, and for the four-field classes every (present subset, wanted "
         "sub-subset, wanted ordinary fields, entry point, layout), for PdiffIndex all/all-but-one/one "
         "field present x wanted all-but-one/one/every-other. "
+        "Routes to the same content and configuration: a built paragraph receives its records by assigning "
+        "the complete list, by para[f] = [] + para[f].append(record), half and half, or as placeholders "
+        "whose sub-fields are then set through para[f][i][sub] (generated: 3 in 5 built cases; always through "
+        "the object the paragraph hands out, never through a list the caller kept); edit steps also append "
+        "records and replace single sub-fields that way. The Release configuration is chosen through the "
+        "attribute or through set_size_field_behavior(), once or as a history of 1..3 assignments that may "
+        "include undocumented values (must raise ValueError and change nothing) - half of the generated Release "
+        "cases - and is changed between two dumps by edit step cfg; after every assignment the attribute "
+        "must read back the value in force, also after dump(). Both have an enumerated source (see EXHAUSTIVE). "
         "Non-trivial = a non-empty strict subset of the class's structured fields is present (in the "
         "text or, with fields=, in the result), an edit history with >= 1 applied step, or >= 1 mapping "
         "operation applied; "
@@ -100,15 +134,17 @@ ASSUMPTIONS = [
     "sub-field names and column order are the table in the module docstring of deb822.py (copied "
     "into DOC); BuildInfo is not listed there, its names are those of deb-buildinfo(5)'s "
     "Checksums-* fields as spelt by the class at the pinned commit",
-    "record lists hold 0..4 records; the empty list only where a paragraph is built or edited "
-    "(the text 'Field:' alone parses to an empty single-line mapping, not to a list, and dumping "
-    "THAT raises KeyError on the pinned tree for every class - reported, not asserted: the parse "
-    "direction and the re-dump of a re-parsed paragraph leave empty fields out)",
-    "an empty list in a PdiffIndex or a Release(dak) makes dump() raise ValueError (max() of no "
-    "sizes) on the pinned tree; reported as a possible defect, NOT asserted: exactly that "
-    "exception type in exactly those two configurations, with an empty list present, is labelled "
-    "'empty-list:dump-raises-ValueError(tolerated)' and nothing is checked on that dump; every "
-    "other class must dump an empty list",
+    "record lists hold 0..4 records (more after edit step append); the empty list is generated only where "
+    "a paragraph is built or edited, every class / configuration must dump it, re-parse it to zero records "
+    "and dump that again (both former deviations are fixed in the tree under test, see replays/C12)",
+    "Release configuration: the two documented values are 'apt-ftparchive' (documented default) and 'dak'; "
+    "set_size_field_behavior(v) and assigning the attribute are the two public routes and must be "
+    "indistinguishable; any other string must be refused with ValueError (what the class raises, and the "
+    "only way 'dump never fails' can hold afterwards) leaving the configuration untouched",
+    "records reach / are changed in a paragraph only through objects the paragraph hands out (para[f], "
+    "para[f][i]); whether a list kept by the caller after para[f] = L stays aliased is not promised by the "
+    "statement, a docstring, docs/ or README (only an internal comment says 'we allow mutable lists') and "
+    "is neither asserted nor relied upon",
     "mapping operations: where sort_fields / order_* put the fields is not part of this property; "
     "after one the dump must hold the same set of field names and lay each one out as before. "
     "copy() may raise (it does on the pinned tree whenever a structured field is present - "
@@ -128,10 +164,12 @@ ASSUMPTIONS = [
 EXHAUSTIVE = {
     "quick": "all 16 subsets of the structured fields of Dsc, Changes, BuildInfo, Release x {apt-ftparchive, dak}; "
              "all subsets of size <=2 or >=12 of the 14 PdiffIndex fields; x 3 record sets x {build, parse}; "
-             "parse-layouts-and-field-filters, mapping-operations, empty-record-lists: see those sources' descriptions",
+             "parse-layouts-and-field-filters, mapping-operations, empty-record-lists, release-configuration-routes, "
+             "records-through-handed-out-objects: see those sources' descriptions",
     "thorough": "all 16 subsets of the structured fields of Dsc, Changes, BuildInfo, Release x {apt-ftparchive, dak}; "
                 "all 2^14 subsets of the PdiffIndex fields; x 3 record sets x {build, parse}; "
-                "parse-layouts-and-field-filters, mapping-operations, empty-record-lists: see those sources' descriptions",
+                "parse-layouts-and-field-filters, mapping-operations, empty-record-lists, release-configuration-routes, "
+                "records-through-handed-out-objects: see those sources' descriptions",
 }
 BUDGET = {"quick": 300, "thorough": 1500}
 
@@ -207,6 +245,33 @@ SORT_KEYS = {"lower": lambda k: k.lower(), "reversed": lambda k: k.lower()[::-1]
 MAPOPS = ("sort", "sortkey", "first", "last", "before", "after", "copy")
 
 
+CFG_ROUTES = ("attr", "method")
+CFG_VALUES = ("apt-ftparchive", "dak")          # the two documented values; the first is the documented default
+FILLS = ("assign", "append", "split", "setsub")
+
+
+def valid_cfg(step):
+    return isinstance(step, list) and len(step) == 2 and isinstance(step[0], str) and step[0] in CFG_ROUTES \
+        and isinstance(step[1], str)
+
+
+def cfg_history(case):
+    """The assignments that choose the configuration of a Release, in order."""
+    if case["cls"] != "Release":
+        return []
+    if "cfg" in case:
+        return case["cfg"]
+    return [["attr", "dak"]] if case.get("dak") else []
+
+
+def effective_dak(case):
+    v = CFG_VALUES[0]
+    for _route, value in cfg_history(case):
+        if value in CFG_VALUES:
+            v = value
+    return v == "dak"
+
+
 def _index_ok(x):
     return isinstance(x, int) and not isinstance(x, bool) and x >= 0
 
@@ -233,14 +298,26 @@ def valid_case(case):
                 if not valid_op(st_):
                     return False
                 continue
-            if not isinstance(st_, list) or not st_ or st_[0] not in ("set", "setlower", "inplace", "del"):
+            if not isinstance(st_, list) or not st_ or st_[0] not in ("set", "setlower", "inplace", "append", "del",
+                                                                      "setsub", "cfg"):
                 return False
             if st_[0] == "del":
                 if len(st_) != 2 or not isinstance(st_[1], int):
                     return False
+            elif st_[0] == "cfg":
+                if not valid_cfg(st_[1:]):
+                    return False
+            elif st_[0] == "setsub":
+                if len(st_) != 6 or not all(_index_ok(x) for x in st_[1:4]) or not _token_ok(st_[4]) or \
+                        not (_token_ok(st_[5]) and st_[5].isascii() and st_[5].isdigit()):
+                    return False
             elif len(st_) != 2 or not valid_case({"kind": "build", "cls": case.get("cls"), "items": [st_[1]]}):
                 return False
     if case.get("cls") not in DOC or not isinstance(case.get("items"), list):
+        return False
+    if "cfg" in case and not (isinstance(case["cfg"], list) and all(valid_cfg(c) for c in case["cfg"])):
+        return False
+    if case.get("fill", "assign") not in FILLS:
         return False
     sub = SUBFIELDS[case["cls"]]
     seen = set()
@@ -301,11 +378,71 @@ def valid_case(case):
 # oracle helpers
 
 
-def make_instance(case):
+def read_config(o, phase):
+    try:
+        return o.size_field_behavior
+    except Exception as e:  # pylint: disable=broad-except
+        raise Violation("config-readback", "%s: reading size_field_behavior raised %s: %s" % (
+            phase, type(e).__name__, short(str(e), 100)))
+
+
+def set_config(o, route, value, expected, labels, phase):
+    """One assignment of the Release configuration through one of the two routes.
+    expected = the configuration the object is in; returns the one it is in afterwards."""
+    how = 'set_size_field_behavior(%r)' % value if route == "method" else 'size_field_behavior = %r' % value
+    got = read_config(o, phase)
+    if got != expected:
+        raise Violation("config-readback", "%s: size_field_behavior reads %s before %s, the paragraph is in "
+                        "configuration %r" % (phase, short(got, 60), how, expected))
+    try:
+        if route == "method":
+            o.set_size_field_behavior(value)
+        else:
+            o.size_field_behavior = value
+    except ValueError as e:
+        if value in CFG_VALUES:
+            raise Violation("config-refused", "%s: %s raised ValueError: %s" % (phase, how, short(str(e), 100)))
+        labels.add("config:invalid-value-refused")
+    except Exception as e:  # pylint: disable=broad-except
+        raise Violation("config-route-raises:" + type(e).__name__, "%s: %s raised %s: %s" % (
+            phase, how, type(e).__name__, short(str(e), 100)))
+    else:
+        if value not in CFG_VALUES:
+            raise Violation("config-invalid-accepted", "%s: %s was accepted (documented values: %s)" % (
+                phase, how, " | ".join(CFG_VALUES)))
+        if value != expected:
+            labels.add("config:changed-by-" + route)
+        expected = value
+    got = read_config(o, phase)
+    if got != expected:
+        raise Violation("config-readback", "%s: after %s size_field_behavior reads %s, expected %r" % (
+            phase, how, short(got, 60), expected))
+    labels.add("config-route:" + route)
+    return expected
+
+
+def configure(o, case, labels=None, phase="configuring"):
+    """Put a Release into the case's configuration by the case's route(s)."""
+    if case["cls"] != "Release":
+        return
+    labels = set() if labels is None else labels
+    hist = cfg_history(case)
+    cur = CFG_VALUES[0]
+    if not hist:
+        got = read_config(o, phase)
+        if got != cur:
+            raise Violation("config-readback", "%s: size_field_behavior of a Release nobody configured reads %s, "
+                            "documented default %r" % (phase, short(got, 60), cur))
+    for route, value in hist:
+        cur = set_config(o, route, value, cur, labels, phase)
+    if len(hist) > 1:
+        labels.add("config:history-of-%d" % min(len(hist), 3))
+
+
+def make_instance(case, labels=None):
     cls = getattr(deb822, case["cls"])
     o = cls()
-    if case["cls"] == "Release" and case.get("dak"):
-        o.size_field_behavior = "dak"
+    configure(o, case, labels, "new instance")
     return cls, o
 
 
@@ -315,7 +452,8 @@ def has_empty(items):
 
 def dump_or_violation(o, case, phase, labels=None):
     """o.dump(); any exception is the property's 'dumping never fails' clause being broken.
-    (``labels`` is kept for callers; no failure is tolerated any more since the empty-list repair.)"""
+    (``labels`` is kept for callers; no failure is tolerated any more since the empty-list repair.)
+    A Release must still be in the configuration it was put into."""
     try:
         text = o.dump()
     except Exception as e:  # pylint: disable=broad-except
@@ -325,6 +463,12 @@ def dump_or_violation(o, case, phase, labels=None):
                             phase, config_tag(case), present, type(e).__name__, short(str(e), 120)))
     if not isinstance(text, str):
         raise Violation("dump-not-text", "%s: dump() returned %s" % (phase, short(text, 80)))
+    if case["cls"] == "Release":
+        want = CFG_VALUES[1 if case.get("dak") else 0]
+        got = read_config(o, phase)
+        if got != want:
+            raise Violation("config-readback", "%s: after dump() size_field_behavior reads %s, the paragraph was "
+                            "put into configuration %r" % (phase, short(got, 60), want))
     return text
 
 
@@ -452,14 +596,53 @@ def compare_records(o, case, phase):
             raise Violation("phantom-field", "%s: %s present though never given" % (phase, f))
 
 
+def handed_out(o, field, want_list, phase):
+    """para[field], asked for anew: the list of records (or the dict of the single-line form)."""
+    try:
+        v = o[field]
+    except KeyError:
+        raise Violation("structured-field-missing", "%s: %s was assigned and is not in the paragraph" % (phase, field))
+    if (not isinstance(v, list)) if want_list else (not hasattr(v, "keys") or not hasattr(v, "__setitem__")):
+        raise Violation("record-shape", "%s: %s holds %s, hands out %s" % (
+            phase, field, "a list of records" if want_list else "one record", short(v, 100)))
+    return v
+
+
+def handed_out_record(o, field, single, i, phase):
+    if single:
+        return handed_out(o, field, False, phase)
+    lst = handed_out(o, field, True, phase)
+    if i >= len(lst):
+        raise Violation("record-count", "%s: %s has %d records, expected more than %d" % (phase, field, len(lst), i))
+    rec = lst[i]
+    if not hasattr(rec, "keys") or not hasattr(rec, "__setitem__"):
+        raise Violation("record-shape", "%s: %s record is %s" % (phase, field, short(rec, 100)))
+    return rec
+
+
 def assign_items(o, case, items):
     sub = SUBFIELDS[case["cls"]]
+    fill = case.get("fill", "assign")
     for it in items:
         if it[0] == "p":
             o[it[1]] = it[2]
+            continue
+        field, names, single = it[1], sub[it[1]], it[3]
+        dicts = [dict(zip(names, r)) for r in it[2]]
+        if fill == "setsub":
+            # placeholders first, every sub-field corrected through what the paragraph hands out
+            blanks = [dict((n, "0") for n in names) for _ in dicts]
+            o[field] = blanks[0] if single else blanks
+            for i, r in enumerate(it[2]):
+                for n, t in zip(names, r):
+                    handed_out_record(o, field, single, i, "filling")[n] = t
+        elif fill in ("append", "split") and not single:
+            h = len(dicts) // 2 if fill == "split" else 0
+            o[field] = dicts[:h]
+            for d in dicts[h:]:
+                handed_out(o, field, True, "filling").append(d)
         else:
-            dicts = [dict(zip(sub[it[1]], r)) for r in it[2]]
-            o[it[1]] = dicts[0] if it[3] else dicts
+            o[field] = dicts[0] if single else dicts
 
 
 def apply_op(o, case, op, names, labels):
@@ -620,12 +803,15 @@ def labels_of(case):
 def check(case):
     if not valid_case(case):
         return (False, ("invalid-case-skipped",))
+    if case["cls"] == "Release" and "cfg" in case:
+        case = dict(case, dak=effective_dak(case))          # "dak" is what the history leaves behind
     nontrivial, labels = labels_of(case)
     kind = case["kind"]
 
     if kind == "build":
-        cls, o = make_instance(case)
+        cls, o = make_instance(case, labels)
         assign_items(o, case, case["items"])
+        labels.add("fill:" + case.get("fill", "assign"))
         o, nops = apply_ops(o, case, case["items"], labels)
         phase = "built, %d mapping operations" % nops if nops else "built"
         nontrivial = nontrivial or nops > 0
@@ -634,8 +820,7 @@ def check(case):
             return (nontrivial, sorted(labels))
         check_layout(text, case, phase, any_order=nops > 0)
         o2 = cls(text)
-        if case["cls"] == "Release" and case.get("dak"):
-            o2.size_field_behavior = "dak"
+        configure(o2, case, None, "dump re-parsed")
         compare_records(o2, case, "dump re-parsed")
         if has_empty(case["items"]):
             labels.add("empty-list:re-dumped")
@@ -660,8 +845,7 @@ def check(case):
                     phase, case["cls"], type(o).__name__))
         else:
             o = cls(text, **kwargs)
-        if case["cls"] == "Release" and case.get("dak"):
-            o.size_field_behavior = "dak"
+        configure(o, case, labels, phase)
         # what was asked for is all there is: the unwanted fields are gone, lines and all
         exp = wanted_view(case)
         if want is not None:
@@ -685,13 +869,13 @@ def check(case):
         # whatever was dumped or assigned before (stale widths, stale formatted text ...).
         sub = SUBFIELDS[case["cls"]]
         if case["start"] == "build":
-            cls, o = make_instance(case)
+            cls, o = make_instance(case, labels)
             assign_items(o, case, case["items"])
+            labels.add("fill:" + case.get("fill", "assign"))
         else:
             cls = getattr(deb822, case["cls"])
             o = cls(harness_text(case))
-            if case["cls"] == "Release" and case.get("dak"):
-                o.size_field_behavior = "dak"
+            configure(o, case, labels, "parsed")
         cur = [list(it) for it in case["items"]]
         text = dump_or_violation(o, case, "before edits", labels)
         if text is not None:
@@ -710,6 +894,39 @@ def check(case):
                 k = step[1] % len(cur)
                 del o[cur[k][1]]
                 del cur[k]
+            elif op == "cfg":
+                # another configuration on an object that was dumped before
+                if case["cls"] != "Release":
+                    continue
+                now_cfg = set_config(o, step[1], step[2], CFG_VALUES[1 if case.get("dak") else 0], labels,
+                                     "edit %d (cfg)" % (nsteps + 1))
+                case = dict(case, dak=now_cfg == "dak")
+                labels.add("class:" + config_tag(case))
+            elif op == "setsub":
+                # one sub-field of one record, through the record the paragraph hands out
+                spos = [i for i, c in enumerate(cur) if c[0] == "s" and c[2]]
+                if not spos:
+                    continue
+                k = spos[step[1] % len(spos)]
+                c = cur[k]
+                i, j = step[2] % len(c[2]), step[3] % len(sub[c[1]])
+                n = sub[c[1]][j]
+                v = step[5] if n == "size" else step[4]
+                handed_out_record(o, c[1], c[3], i, "edit %d (setsub)" % (nsteps + 1))[n] = v
+                recs = [list(r) for r in c[2]]
+                recs[i][j] = v
+                cur[k] = [c[0], c[1], recs, c[3]]
+                labels.add("setsub:" + ("single-line" if c[3] else "size" if n == "size" else "hash" if j == 0 else "other"))
+            elif op == "append":
+                # more records through the list the paragraph hands out (asked for again each time)
+                it = step[1]
+                pos = [i for i, c in enumerate(cur) if c[1].lower() == it[1].lower()]
+                if not pos or it[0] != "s" or it[3] or not it[2] or cur[pos[0]][0] != "s" or cur[pos[0]][3]:
+                    continue
+                c = cur[pos[0]]
+                for r in it[2]:
+                    handed_out(o, c[1], True, "edit %d (append)" % (nsteps + 1)).append(dict(zip(sub[c[1]], r)))
+                cur[pos[0]] = [c[0], c[1], [list(r) for r in c[2]] + [list(r) for r in it[2]], False]
             else:
                 it = list(step[1])
                 if it[0] == "s" and not it[3] and not it[2]:
@@ -736,6 +953,7 @@ def check(case):
                         cur[pos[0]] = it
                     else:
                         cur.append(it)
+            if op not in MAPOPS:
                 labels.add("edit:" + op)
             nsteps += 1
             now = dict(case, items=cur)
@@ -770,7 +988,7 @@ def check(case):
         it[2] = recs
         nm = SUBFIELDS[case["cls"]][it[1]][ci]
         labels.add("newline-in:" + ("hash" if ci == 0 else "size" if nm == "size" else "other"))
-        cls, o = make_instance(case)
+        cls, o = make_instance(case, labels)
         assign_items(o, case, items)
         try:
             text = o.dump()
@@ -985,6 +1203,102 @@ EMPTY_DESC = ("empty record lists: every non-empty subset of the structured fiel
               "parsed paragraph that held three records there; PdiffIndex with all 14 fields / one field, each one empty")
 
 
+INVALID_CONFIGS = ["bogus", "DAK", "", "apt", "apt-ftparchive ", " dak", "Dak", "16"]
+
+
+def cfg_histories():
+    """Every history of one or two assignments over {attribute, method} x {"dak", "apt-ftparchive",
+    a value that is neither}, and six of three; deterministic order, simplest first."""
+    out = []
+    k = 0
+    for n in (1, 2):
+        for steps in itertools.product(itertools.product(CFG_ROUTES, ("dak", "apt-ftparchive", None)), repeat=n):
+            hist = []
+            for route, value in steps:
+                if value is None:
+                    value = INVALID_CONFIGS[k % len(INVALID_CONFIGS)]
+                    k += 1
+                hist.append([route, value])
+            out.append(hist)
+    for a, b, c in (("method", "method", "method"), ("attr", "method", "attr"), ("method", "attr", "method")):
+        out.append([[a, "dak"], [b, "apt-ftparchive"], [c, "dak"]])
+        out.append([[a, "dak"], [b, "dak"], [c, "apt-ftparchive"]])
+    return out
+
+
+CFG_HISTORIES = cfg_histories()
+
+
+def enum_config_cases():
+    """Release: the configuration reached through every documented route and history."""
+    def gen():
+        for hist in CFG_HISTORIES:
+            for mask in range(16):
+                for kind in ("build", "parse"):
+                    case = enum_case("Release", False, mask, 1, kind)
+                    case["cfg"] = hist
+                    case["dak"] = effective_dak(case)
+                    yield case
+        # ... and changed on an object that was dumped before
+        singles = [["cfg", r, v] for r in CFG_ROUTES for v in ("dak", "apt-ftparchive", "bogus")]
+        for start_hist in (None, [["method", "dak"]], [["attr", "dak"]]):
+            for mask in range(1, 16):
+                for start in ("build", "parse"):
+                    base = enum_case("Release", False, mask, 1, "build")
+                    seqs = [[s] for s in singles] + \
+                           [[["cfg", "method", "dak"], ["cfg", "method", "apt-ftparchive"]],
+                            [["cfg", "method", "apt-ftparchive"], ["cfg", "attr", "dak"]],
+                            [["cfg", "attr", "dak"], ["set", base["items"][1]], ["cfg", "method", "apt-ftparchive"]],
+                            [["cfg", "method", "dak"], ["sort"], ["cfg", "method", "dak"]]]
+                    for steps in seqs:
+                        case = {"kind": "edit", "cls": "Release", "dak": False, "items": base["items"], "pad": 0,
+                                "start": start, "steps": steps}
+                        if start_hist is not None:
+                            case["cfg"] = start_hist
+                            case["dak"] = True
+                        yield case
+    return gen
+
+
+CONFIG_DESC = ("Release, routes to a configuration: every history of one or two assignments over {size_field_behavior = v, "
+               "set_size_field_behavior(v)} x {dak, apt-ftparchive, an undocumented value} and six histories of three, x "
+               "every subset of the four fields x {build, parse}; and on one object between two dumps: every non-empty "
+               "subset x {built, parsed} x {unconfigured, dak by method, dak by attribute} x 10 step lists (each single "
+               "assignment, there and back, with a field assignment / sort_fields() in between)")
+
+
+def enum_fill_cases():
+    """Records that reach the paragraph through the list / dict it hands out."""
+    def gen():
+        todo = [(c, d, m) for c, d in FOUR for m in range(1, 16)] + \
+               [("PdiffIndex", False, m) for m in pdiff_corner_masks()]
+        for clsname, dak, mask in todo:
+            for variant in range(3):
+                for fill in FILLS[1:]:
+                    yield dict(enum_case(clsname, dak, mask, variant, "build"), fill=fill)
+            # a paragraph that exists already (built or parsed): one more record, one sub-field corrected
+            # (PdiffIndex also from the one-record set, where the *-Current fields are single-line dicts)
+            more = enum_case(clsname, dak, mask, 2, "build")
+            for variant in ((1, 0) if clsname == "PdiffIndex" else (1,)):
+                base = enum_case(clsname, dak, mask, variant, "build")
+                sidx = [i for i, it in enumerate(base["items"]) if it[0] == "s"]
+                for start in ("build", "parse"):
+                    for n, i in enumerate(sidx[:4]):
+                        steps = [["append", more["items"][i]],
+                                 ["setsub", n, 1, n, "n\u00e9w", "12345678901234567"[:5 + 6 * n]]]
+                        for order in (steps, steps[::-1], steps[1:] + [["setsub", n, 0, 1, "x", "8"]]):
+                            yield {"kind": "edit", "cls": clsname, "dak": dak, "items": base["items"], "pad": 0,
+                                   "start": start, "steps": order}
+    return gen
+
+
+FILL_DESC = ("records through what the paragraph hands out: every non-empty subset of the structured fields of Dsc, Changes, "
+             "BuildInfo, Release x {apt-ftparchive, dak}, PdiffIndex with all / all-but-one / one field, x 3 record sets x "
+             "{para[f] = [] then para[f].append(rec), half assigned half appended, placeholders assigned then "
+             "para[f][i][sub] = token}; and on a built / parsed paragraph that was dumped: for each of (up to four) present "
+             "fields append two records and / or replace one sub-field (hash, size - up to 17 digits -, third, fourth column)")
+
+
 LAYOUTS_DESC = ("parse direction: every enumerated subset (three- and two-record sets) with all fields folded; "
                 "fields=: Dsc, Changes, BuildInfo, Release x {apt-ftparchive, dak}: every subset present x every "
                 "sub-subset wanted x every subset of the two ordinary fields wanted x {constructor, iter_paragraphs} "
@@ -1068,7 +1382,14 @@ def gen_case(draw):
         items.insert(code // 8, ["p", PLAIN_NAMES[j], PLAIN_VALUES[code % 8]])
     kind = draw(st.sampled_from(["build", "parse", "build", "parse", "build", "parse", "newline"]))
     case = {"kind": kind, "cls": clsname, "dak": dak, "items": items}
+    if clsname == "Release":
+        # 0: the attribute, once (or nothing for apt-ftparchive); else one of the enumerated histories
+        h = draw(st.integers(0, 2 * len(CFG_HISTORIES) - 1))
+        if h % 2:
+            case["cfg"] = CFG_HISTORIES[h // 2]
+            case["dak"] = effective_dak(case)
     if kind == "build":
+        case["fill"] = draw(st.sampled_from(FILLS + ("assign",)))
         # a third of the built paragraphs hold one multi-line field with no records at all
         e = draw(st.integers(0, 3 * max(len(items), 1) - 1))
         if e >= 2 * len(items) and items[e - 2 * len(items)][0] == "s":
@@ -1119,10 +1440,22 @@ def gen_edit_case(draw):
     base = draw(gen_case())
     present = set(it[1] for it in base["items"] if it[0] == "s")
     steps = []
+    choices = ["set", "set", "setlower", "inplace", "inplace", "del", "mapop", "mapop", "append", "append", "setsub", "setsub"]
+    if base["cls"] == "Release":
+        choices += ["cfg", "cfg", "cfg"]
     for _ in range(draw(st.integers(1, 3))):
-        op = draw(st.sampled_from(["set", "set", "setlower", "inplace", "inplace", "del", "mapop", "mapop"]))
+        op = draw(st.sampled_from(choices))
         if op == "del":
             steps.append(["del", draw(st.integers(0, 5))])
+        elif op == "cfg":
+            # (both documented values four times as likely as a value that must be refused)
+            values = ["dak", "apt-ftparchive"] * 4 + INVALID_CONFIGS
+            c = draw(st.integers(0, 2 * len(values) - 1))
+            steps.append(["cfg", CFG_ROUTES[c % 2], values[c // 2]])
+        elif op == "setsub":
+            c = draw(st.integers(0, 6 * 4 * 5 - 1))
+            steps.append(["setsub", c % 6, c // 6 % 4, c // 24, TOKENS[draw(st.integers(0, NT - 1))],
+                          SIZES[draw(st.integers(0, len(SIZES) - 1))]])
         elif op == "mapop":
             steps.append(decode_op(draw(st.integers(0, NOPCODES - 1))))
         else:
@@ -1130,8 +1463,12 @@ def gen_edit_case(draw):
     start = draw(st.sampled_from(["build", "parse"]))
     if has_empty(base["items"]):
         start = "build"                 # no text spells an empty record list
-    return {"kind": "edit", "cls": base["cls"], "dak": base["dak"], "items": base["items"],
+    case = {"kind": "edit", "cls": base["cls"], "dak": base["dak"], "items": base["items"],
             "start": start, "pad": 0, "steps": steps}
+    for k in ("cfg", "fill"):
+        if k in base:
+            case[k] = base[k]
+    return case
 
 
 def sources(tier):
@@ -1140,11 +1477,15 @@ def sources(tier):
                 Enum("parse-layouts-and-field-filters", enum_layout_cases(False), LAYOUTS_DESC),
                 Enum("mapping-operations", enum_mapop_cases(), MAPOPS_DESC),
                 Enum("empty-record-lists", enum_empty_cases(), EMPTY_DESC),
+                Enum("release-configuration-routes", enum_config_cases(), CONFIG_DESC),
+                Enum("records-through-handed-out-objects", enum_fill_cases(), FILL_DESC),
                 Hyp("records", gen_case(), 350, shards=8),
                 Hyp("edit-histories", gen_edit_case(), 250, shards=6)]
     return [Enum("field-subsets-all", enum_cases(True), EXHAUSTIVE["thorough"]),
             Enum("parse-layouts-and-field-filters", enum_layout_cases(True), LAYOUTS_DESC),
             Enum("mapping-operations", enum_mapop_cases(), MAPOPS_DESC),
             Enum("empty-record-lists", enum_empty_cases(), EMPTY_DESC),
+            Enum("release-configuration-routes", enum_config_cases(), CONFIG_DESC),
+            Enum("records-through-handed-out-objects", enum_fill_cases(), FILL_DESC),
             Hyp("records", gen_case(), 5000, shards=16),
             Hyp("edit-histories", gen_edit_case(), 4000, shards=12)]
